@@ -425,6 +425,9 @@ def r9_ambient_state(ctx, sym):
 def run(ctx):
     sym = Symbols(ctx.repo)
     mod = ctx.repo.module(SANDBOX)
+    # R1 continued: the text the sandbox reads from the submission is the text that was submitted (shared with C12.R8)
+    from .c12 import r8_text_kept
+    r8_text_kept(ctx, sym, rule='R1')
     r9_ambient_state(ctx, sym)      # (a sweep: first, so that it reports even where an execution rule cannot interpret the call)
     r1_source_unmodified(ctx, sym, mod)
     r2_arguments(ctx, sym, mod)
